@@ -447,7 +447,7 @@ class Large(AggBase):
 
 W = [-12.75, 7, 0.125, -3, 100, 10.5, 0.1, -0.5, 33, 2]
 P = [1, 2, 2.5, 4, 0.5, 10, 3, 0.125]
-FAMILIES = ('cyc', 'mag', 'pos', 'const', 'alt', 'dup', 'big', 'huge')
+FAMILIES = ('cyc', 'mag', 'pos', 'const', 'alt', 'dup', 'big', 'huge', 'offs', 'offs53')
 _REL = [1e-9]       # relative tolerance of judge(); 1e-6 for the large-magnitude families (see LongLists)
 
 
@@ -468,6 +468,10 @@ def long_list(fam, n):
         return [1000000 + ((3 * i + 1) % 7) / 10.0 for i in range(n)]
     if fam == 'huge':
         return [100000000 + ((5 * i + 2) % 4 + 1) / 10.0 for i in range(n)]
+    if fam == 'offs':       # whole numbers far from zero with a small spread: exact in, so exact arithmetic is possible throughout
+        return [1000000000000 + (1, 2, 4, 8, 5)[(3 * i) % 5] for i in range(n)]
+    if fam == 'offs53':     # ... and beyond 2^53, where a conversion to a double loses the units
+        return [2 ** 53 + (1, 2, 4, 8, 5)[(3 * i) % 5] for i in range(n)]
     raise ValueError(fam)
 
 
@@ -486,8 +490,8 @@ def long_shapes(n):
 
 class LongLists(AggBase):
     name = 'c11.long'
-    rule = ('8 deterministic list families (cyclic over the pool, mixed magnitudes, positive, constant, '
-            'alternating integers, runs of duplicates, and two large-magnitude/small-spread decimal families) of length 5..40 x 7 groupings x 15 functions, and LARGE '
+    rule = ('10 deterministic list families (cyclic over the pool, mixed magnitudes, positive, constant, '
+            'alternating integers, runs of duplicates, two large-magnitude/small-spread decimal families, whole numbers at 10^12 and beyond 2^53 with a small spread) of length 5..40 x 7 groupings x 15 functions, and LARGE '
             'for every k on 4 array renderings; non-trivial = every case')
     min_cases = 30
     min_nontrivial = 30
@@ -516,7 +520,10 @@ class LongLists(AggBase):
     def _block(self, env, fam, n, items):
         out = []
         # a product beyond the double range is not demanded
-        specs = [(fn, ref_stat(fn, items)) for fn in AGG if not (fn == 'PRODUCT' and fam == 'huge' and n > 35)]
+        big = 1
+        for x in items:
+            big *= abs(int(x)) + 1
+        specs = [(fn, ref_stat(fn, items)) for fn in AGG if not (fn == 'PRODUCT' and big > 10 ** 300)]
         for shape in long_shapes(n):
             for fn, spec in specs:
                 f = agg_one(env, fn, shape, items, invariance=not shape_is_plain(shape), spec=spec)
@@ -591,7 +598,8 @@ class Slope(Sub):
                 yield ['lng', fy, fx, n]
         # numerically delicate pairs: x (or y) of large magnitude and small spread
         for n in (3, 5, 8, 13):
-            for fy, fx in (('alt', 'big'), ('cyc', 'huge'), ('big', 'alt'), ('huge', 'big')):
+            for fy, fx in (('alt', 'big'), ('cyc', 'huge'), ('big', 'alt'), ('huge', 'big'), ('alt', 'offs'), ('offs', 'alt'), ('alt', 'offs53'),
+                           ('offs53', 'pos')):
                 yield ['lng', fy, fx, n]
 
     def check(self, env, case):
@@ -648,6 +656,8 @@ def crit_holds(crit, cell):
     if op is not None:
         if num is not None and op != '<>' and not is_number(cell):
             return False        # a text, logical or blank cell does not satisfy a comparison with a number
+        if num is not None and op == '<>' and not is_number(cell):
+            return True         # ... and for the same reason it IS different from that number (TRUE is not 1)
         if num is None or not is_number(cell):
             raise ValueError('outside the checked criteria domain: %r on %r' % (crit, cell))
         c = fr(cell)
@@ -965,14 +975,14 @@ def number_of(o):
 class CriteriaMixed(CritBase):
     name = 'c11.criteria_mixed'
     rule = ('criteria ranges that mix kinds of cells (a header text above numbers, a logical, a blank): every list of length '
-            '2..3 over {1, 2.5, -1, "a", "x2", TRUE, blank} x criteria {>0, <2, >=2.5, <=1, =1, 1, a, x*, ?} x COUNTIF, SUMIFS, '
+            '2..3 over {1, 2.5, -1, 0, "a", "x2", "", TRUE, FALSE, blank} x criteria {>0, <2, >=2.5, <=1, =1, 1, a, x*, ?, <>1, <>0, ""} x COUNTIF, SUMIFS, '
             'AVERAGEIFS, MAXIFS over numeric value lists, as host lists, columns and rows: a cell of another kind than the '
             'criterion simply is not selected; non-trivial = proper non-empty selection')
     min_cases = 100
     min_nontrivial = 1000
     min_classes = 6
-    MIXED = [1, 2.5, -1, 'a', 'x2', True, None]
-    CRITS = ['>0', '<2', '>=2.5', '<=1', '=1', '1', 'a', 'x*', '?']
+    MIXED = [1, 2.5, -1, 'a', 'x2', True, None, '', False, 0]
+    CRITS = ['>0', '<2', '>=2.5', '<=1', '=1', '1', 'a', 'x*', '?', '<>1', '<>0', '']
 
     def cases(self, tier, unit):
         for n in (2, 3):
